@@ -95,4 +95,179 @@ theorem sugar_text :
     (parse "!a == b").show = (parse "eq(not(a), b)").show := by
   decide +kernel
 
+/-! ## precedence and associativity: the tree `climb` builds is the one the table prescribes
+
+`climb` is pest's `PrecClimber::climb` (outer and inner `while` of `climb_rec`) over the pair list
+`primary (operator primary)*` of a `Rule::expression`, with the table generated from parser.rs.
+`Shaped climberInfo t` says that `t` obeys the table at every node (`shaped_node_iff`): the root of the right operand
+binds tighter than the node's operator, or equally and is right-associative; the root of the left operand binds
+tighter, or equally and the node's operator is left-associative — i.e. `t` is what one gets by writing the fully
+parenthesised tree with no parentheses at all.  (A parenthesised group is a primary of the climber: the grammar hands
+it over as one pair.)  `climb_spec`: such a tree is recovered exactly from its in-order listing; `climb_total`: on
+every well-formed pair list `climb` answers, with a tree that lists back to the input and obeys the table; so the
+table-obeying tree of a pair list exists, is unique (`climb_unique`) and is what the parser builds. -/
+
+theorem shaped_node_iff {α : Type} (r : String) (l rt : Tree α) :
+    Shaped climberInfo (.node r l rt) ↔
+      ∃ p a, climberInfo r = some (p, a) ∧ Shaped climberInfo l ∧ Shaped climberInfo rt ∧
+        (∀ s q b, rootRule l = some s → climberInfo s = some (q, b) → q > p ∨ (q = p ∧ a = Assoc.left)) ∧
+        (∀ s, rootRule rt = some s → ∃ q b, climberInfo s = some (q, b) ∧ (q > p ∨ (q = p ∧ b = Assoc.right))) := by
+  simp only [Shaped]
+  constructor
+  · rintro ⟨p, a, h1, h2, h3, h4, h5⟩
+    refine ⟨p, a, h1, h2, h3, fun s q b hs hi => ?_, fun s hs => ?_⟩
+    · have := (absorbs_false_iff q p a).mp (h4 s q b hs hi)
+      rcases Nat.lt_or_ge p q with h | h
+      · exact Or.inl h
+      · exact Or.inr ⟨by omega, this.2 (by omega)⟩
+    · obtain ⟨q, b, hi, hab⟩ := h5 s hs
+      exact ⟨q, b, hi, (absorbs_true_iff p q b).mp hab⟩
+  · rintro ⟨p, a, h1, h2, h3, h4, h5⟩
+    refine ⟨p, a, h1, h2, h3, fun s q b hs hi => ?_, fun s hs => ?_⟩
+    · rw [absorbs_false_iff]
+      rcases h4 s q b hs hi with h | ⟨h, ha⟩
+      · exact ⟨by omega, fun e => by omega⟩
+      · exact ⟨by omega, fun _ => ha⟩
+    · obtain ⟨q, b, hi, hab⟩ := h5 s hs
+      exact ⟨q, b, hi, (absorbs_true_iff p q b).mpr hab⟩
+
+/-- every tree that obeys the table is parsed back from its in-order listing (no parentheses) -/
+theorem climb_spec {α : Type} (t : Tree α) (h : Shaped climberInfo t) : climb climberInfo (inorder t) = some t :=
+  climb_complete climberInfo climberInfo_uniform t h
+
+/-- on every well-formed pair list (a primary, then known operators and primaries alternating) `climb` answers;
+    the tree lists back to exactly the input (nothing dropped, nothing reordered) and obeys the table -/
+theorem climb_total {α : Type} (a : α) (ts : List (Item α)) (h : Alt climberInfo ts) :
+    ∃ t, climb climberInfo (.prim a :: ts) = some t ∧ inorder t = .prim a :: ts ∧ Shaped climberInfo t :=
+  climb_ok climberInfo climberInfo_uniform a ts h
+
+/-- there is only one table-obeying tree over a given pair list -/
+theorem climb_unique {α : Type} (t1 t2 : Tree α) (h1 : Shaped climberInfo t1) (h2 : Shaped climberInfo t2)
+    (h : inorder t1 = inorder t2) : t1 = t2 := by
+  have e1 := climb_spec t1 h1
+  have e2 := climb_spec t2 h2
+  rw [h, e2] at e1
+  exact (Option.some.inj e1).symm
+
+/-- the hypotheses are satisfiable: `a + b * c ** d ** e` obeys the table (it is what `climb` builds) … -/
+example : Shaped climberInfo
+    (Tree.node "BINARY_ADD" (.leaf "a") (.node "BINARY_MUL" (.leaf "b")
+      (.node "BINARY_POW" (.leaf "c") (.node "BINARY_POW" (.leaf "d") (.leaf "e"))))) := by
+  obtain ⟨t, h1, _, h3⟩ := climb_total "a"
+    [.op "BINARY_ADD", .prim "b", .op "BINARY_MUL", .prim "c", .op "BINARY_POW", .prim "d", .op "BINARY_POW", .prim "e"]
+    (.cons _ _ _ (by decide) (.cons _ _ _ (by decide) (.cons _ _ _ (by decide) (.cons _ _ _ (by decide) .nil))))
+  have h : climb climberInfo
+      [.prim "a", .op "BINARY_ADD", .prim "b", .op "BINARY_MUL", .prim "c", .op "BINARY_POW", .prim "d", .op "BINARY_POW", .prim "e"]
+      = some (Tree.node "BINARY_ADD" (.leaf "a") (.node "BINARY_MUL" (.leaf "b")
+          (.node "BINARY_POW" (.leaf "c") (.node "BINARY_POW" (.leaf "d") (.leaf "e"))))) := by decide +kernel
+  rw [h] at h1; cases h1; exact h3
+
+/-- … and `(a + b) * c` does not (it needs its parentheses: without them `climb` builds `a + (b * c)`) -/
+example : ¬ Shaped climberInfo (Tree.node "BINARY_MUL" (.node "BINARY_ADD" (.leaf "a") (.leaf "b")) (.leaf "c")) := by
+  intro h
+  have := climb_spec _ h
+  revert this
+  decide +kernel
+
+/-- the same through the whole pipeline on source text: `**` tightest and to the right, then `* / %`, `+ -`, `| & ^`,
+    the comparisons, `&& ||`, each level to the left; unary tighter than binary; accessors tighter than unary -/
+theorem precedence_text :
+    (parse "a + b * c ** d ** e - f").show = (parse "sub(add(a, mul(b, pow(c, pow(d, e)))), f)").show ∧
+    (parse "a - b - c").show = (parse "sub(sub(a, b), c)").show ∧
+    (parse "a / b % c * d").show = (parse "mul(mod(div(a, b), c), d)").show ∧
+    (parse "a || b && c == d | e + f").show = (parse "and(or(a, b), eq(c, bit_or(d, add(e, f))))").show ∧
+    (parse "a < b <= c != d").show = (parse "ne(le(lt(a, b), c), d)").show ∧
+    (parse "a ^ b & c | d").show = (parse "bit_or(bit_and(bit_xor(a, b), c), d)").show ∧
+    (parse "-a ** -b").show = (parse "pow(neg(a), neg(b))").show ∧
+    (parse "!a.f(b)[c]::d").show = "(call (id not) (member (call (id get) (call (id f) (id a) (id b)) (id c)) d))" ∧
+    (parse "(a + b) * c").show = (parse "mul(add(a, b), c)").show := by
+  decide +kernel
+
+open XrayModel.Core
+
+/-! ## evaluation order (over the run-time core model `XrayModel/Core.lean`)
+
+Arguments are evaluated strictly, left to right, exactly once: a strict native and a user function both start with
+`evalList` of the argument expressions; when it delivers values, `SeqVals` holds — the chain
+`eval e₁` from the call's state, `eval e₂` from the state `e₁` left, … one evaluation per argument, in order — and the
+call continues *on the values* (`prim f vs` / `callUser … vs`: neither can evaluate an argument expression again).
+When an argument yields an error value or a violation, that outcome is the call's (C06 says which one).
+
+The only natives of the core that skip an argument are `if`, `and`, `or`, `if_error` — documented as short-circuiting:
+book/src/std/general.md:59 (`if`), std/bool.md:17 (`and`), :57 (`or`), std/errors.md:17 (`if_error`); further
+documented short-circuit functions are outside the core model (`then` bool.md:61, optional `and/map/map_or/or/value_or`
+optional.md:9-44, mapping `get` with default mapping.md:46, `if_error` with a message errors.md:21) and are covered by
+the check only.  book/src/lang/functions.md:162: "users should assume that functions are not short-circuiting, unless
+the documentation explicitly states otherwise". -/
+
+theorem args_left_to_right_once (n : Nat) (cfg : Cfg) (fr : Frame) (es : List Expr) (st st' : St) (vs : List Val)
+    (h : evalList n cfg fr es st = (.ok vs, st')) : SeqVals cfg fr n es st vs st' :=
+  evalList_ok_seqVals n cfg fr es st st' vs h
+
+theorem strict_once (n : Nat) (cfg : Cfg) (fr : Frame) (f : String) (args : List Expr) (tail : Bool) (st : St)
+    (hf : isStrictPrim f = true) :
+    (∀ vs st', evalList n cfg fr args st = (.ok vs, st') →
+        SeqVals cfg fr n args st vs st' ∧ builtin (n + 1) cfg fr f args tail st = (prim f vs, st')) ∧
+    (∀ r st', evalList n cfg fr args st = (.error r, st') → builtin (n + 1) cfg fr f args tail st = (r, st')) := by
+  refine ⟨fun vs st' h => ⟨evalList_ok_seqVals _ _ _ _ _ _ _ h, ?_⟩, fun r st' h => ?_⟩ <;>
+    rw [builtin_strict hf] <;> simp [strictCall, hf, h]
+
+theorem user_call_once (n : Nat) (cfg : Cfg) (fr : Frame) (g : Func) (d : List Val) (env : List (String × Val))
+    (args : List Expr) (tail : Bool) (st : St) :
+    (∀ vs st', evalList n cfg fr args st = (.ok vs, st') →
+        SeqVals cfg fr n args st vs st' ∧
+        callVal (n + 1) cfg fr (.clos g d env) args tail st = callUser n cfg fr.height (.clos g d env) vs st') ∧
+    (∀ r st', evalList n cfg fr args st = (.error r, st') → callVal (n + 1) cfg fr (.clos g d env) args tail st = (r, st')) := by
+  refine ⟨fun vs st' h => ⟨evalList_ok_seqVals _ _ _ _ _ _ _ h, ?_⟩, fun r st' h => ?_⟩ <;> simp [callVal, h]
+
+theorem shortcircuit_only_documented (f : String) (args : List Expr) (hdoc : f ∉ ["if", "and", "or", "if_error"])
+    (n : Nat) (cfg : Cfg) (fr : Frame) (tail : Bool) (st : St) :
+    (∃ a, args = [a] ∧ f = "is_error" ∧
+        (∀ v st', eval n cfg fr a false st = (.val v, st') →
+          builtin (n + 1) cfg fr f args tail st = (.val (.bool v.isErr), st')) ∧
+        (∀ k st', eval n cfg fr a false st = (.viol k, st') → builtin (n + 1) cfg fr f args tail st = (.viol k, st'))) ∨
+    (∃ a, args = [a] ∧ f = "display" ∧
+        (∀ m st', eval n cfg fr a false st = (.val (.err m), st') →
+          builtin (n + 1) cfg fr f args tail st = (.val (.err m), st')) ∧
+        (∀ v s st', eval n cfg fr a false st = (.val v, st') → v.isErr = false → toStr v = some s →
+          builtin (n + 1) cfg fr f args tail st = (.val v, { st' with out := st'.out ++ [s] })) ∧
+        (∀ k st', eval n cfg fr a false st = (.viol k, st') → builtin (n + 1) cfg fr f args tail st = (.viol k, st'))) ∨
+    builtin (n + 1) cfg fr f args tail st = strictCall n cfg fr f args st := by
+  rcases builtin_shape f args with ⟨_, _, _, rfl, _⟩ | ⟨_, _, rfl, _⟩ | ⟨_, _, rfl, _⟩ | ⟨_, _, rfl, _⟩ |
+    ⟨a, rfl, rfl⟩ | ⟨a, rfl, rfl⟩ | hd
+  · simp at hdoc
+  · simp at hdoc
+  · simp at hdoc
+  · simp at hdoc
+  · left
+    refine ⟨a, rfl, rfl, fun v st' h => ?_, fun k st' h => ?_⟩ <;> simp [builtin, h]
+  · right; left
+    refine ⟨a, rfl, rfl, fun m st' h => ?_, fun v s st' h hv hs => ?_, fun k st' h => ?_⟩
+    · simp [builtin, h]
+    · cases v <;> simp_all [builtin, Val.isErr]
+    · simp [builtin, h]
+  · right; right; exact hd n cfg fr tail st
+
+theorem documented_do_skip (n : Nat) (cfg : Cfg) (fr : Frame) (c b b' x : Expr) (tail : Bool) (st st' : St) :
+    (eval n cfg fr c false st = (.val (.bool false), st') →
+      builtin (n + 1) cfg fr "and" [c, b] tail st = builtin (n + 1) cfg fr "and" [c, b'] tail st ∧
+      builtin (n + 1) cfg fr "if" [c, b, x] tail st = builtin (n + 1) cfg fr "if" [c, b', x] tail st) ∧
+    (eval n cfg fr c false st = (.val (.bool true), st') →
+      builtin (n + 1) cfg fr "or" [c, b] tail st = builtin (n + 1) cfg fr "or" [c, b'] tail st ∧
+      builtin (n + 1) cfg fr "if" [c, x, b] tail st = builtin (n + 1) cfg fr "if" [c, x, b'] tail st) ∧
+    (∀ k : Int, eval n cfg fr c false st = (.val (.int k), st') →
+      builtin (n + 1) cfg fr "if_error" [c, b] tail st = builtin (n + 1) cfg fr "if_error" [c, b'] tail st) := by
+  refine ⟨fun h => ?_, fun h => ?_, fun k h => ?_⟩ <;> simp [builtin, h]
+
+/-- a user function named like the operator's function is what the operator calls -/
+theorem overload_takes_effect (r f : String) (a b : SExpr) (a' b' : Expr) (hf : infixName r = some f)
+    (hi : (climberInfo r).isSome) (ha : toCore a = some a') (hb : toCore b = some b')
+    (fr : Frame) (c : Val) (hc : lookup f fr.env = some c) (n : Nat) (cfg : Cfg) (tail : Bool) (st : St) :
+    ∃ e, (buildBinary a [(r, b)]).bind toCore = some e ∧
+      eval (n + 2) cfg fr e tail st = callVal n cfg fr c [a', b'] tail st := by
+  obtain ⟨⟨p, as⟩, hp⟩ := Option.isSome_iff_exists.mp hi
+  refine ⟨.call f [a', b'], ?_, eval_call_bound hc n cfg [a', b'] tail st⟩
+  simp [buildBinary, climb, climbRec, climbInner, hp, foldTree, hf, newCall, toCore, toCoreList, ha, hb]
+
+
 end XrayModel.C02
